@@ -583,3 +583,69 @@ Proof.
   - exfalso. unfold builder_new in En. destruct (negb (f_st f0)); [discriminate|]. destruct (f_last f0); [|discriminate].
     destruct (f_id f0 + 1 <? 65536); discriminate.
 Qed.
+
+(* ---------- C14, CAN: the SND checker accepts the model's observation ---------- *)
+Require Import RP.Model.Links RP.Lemmas.Senders.
+Lemma outcomes_codes ans : outcomes (map ttok_of ans) = map ttok_of (filter (fun x => negb (x =? 1)) ans).
+Proof.
+  induction ans as [|x t IH]; [reflexivity|]. cbn [map filter outcomes]. fold (outcomes (map ttok_of t)). rewrite IH.
+  destruct x as [|q]; [reflexivity|]. destruct q; reflexivity.
+Qed.
+Lemma glue_can_expect_spec : forall cfs os, Forall (fun x => x <> 1) os ->
+  RP.Glue.StreamLink.can_expect cfs os = (fst (RP.Lemmas.Senders.can_expect cfs (map ttok_of os)), show_sres (snd (RP.Lemmas.Senders.can_expect cfs (map ttok_of os)))).
+Proof.
+  induction cfs as [|c t IH]; intros os Hos; [reflexivity|]. cbn [RP.Glue.StreamLink.can_expect RP.Lemmas.Senders.can_expect].
+  destruct os as [|o os']; [reflexivity|]. apply Forall_cons_iff in Hos. destruct Hos as [Ho Hos'].
+  cbn [map]. destruct o as [|q].
+  - cbn [ttok_of]. rewrite (IH os' Hos'). destruct (RP.Lemmas.Senders.can_expect t (map ttok_of os')) as [s r]. reflexivity.
+  - destruct q; try (exfalso; apply Ho; reflexivity); reflexivity.
+Qed.
+Theorem ok_C14_can_accepts_model case p encs fl ans cfs :
+  snd_split case = Some (0, p, encs, fl, ans) -> cans_of encs = Some cfs -> ok_C14 case (run_SND case) = [].
+Proof.
+  intros Hs Hc. unfold ok_C14, run_SND. rewrite Hs, Hc. rewrite can_send_spec, outcomes_codes.
+  assert (Hf: Forall (fun x => x <> 1) (filter (fun x => negb (x =? 1)) ans)).
+  { apply Forall_forall. intros x Hx. apply filter_In in Hx. destruct Hx as [_ Hx]. apply negb_true_iff, N.eqb_neq in Hx. exact Hx. }
+  rewrite (glue_can_expect_spec cfs _ Hf).
+  destruct (RP.Lemmas.Senders.can_expect cfs (map ttok_of (filter (fun x => negb (x =? 1)) ans))) as [sent r]. cbn [fst snd].
+  rewrite list_eqb_refl. reflexivity.
+Qed.
+
+(* ---------- C14, USART: the SND checker accepts the model's observation (hard write errors are outside the property) ---------- *)
+Lemma accepts_codes ans : existsb (fun x => 1 <? x) ans = false ->
+  no_wfail (map wtok_of ans) /\ accepts_in (map wtok_of ans) = length (filter (fun x => x =? 0) ans).
+Proof.
+  induction ans as [|x t IH]; intros H; [split; [constructor|reflexivity]|].
+  cbn [existsb] in H. apply orb_false_elim in H. destruct H as [Hx Ht]. destruct (IH Ht) as [I1 I2].
+  unfold no_wfail, accepts_in in *. cbn [map filter].
+  destruct x as [|q]; [split; [constructor; [discriminate|exact I1]|cbn [wtok_of filter length]; rewrite I2; reflexivity]|].
+  destruct q; try discriminate Hx. split; [constructor; [discriminate|exact I1]|cbn [wtok_of N.eqb filter]; exact I2].
+Qed.
+Theorem ok_C14_usart_accepts_model case p encs fl ans :
+  snd_split case = Some (1, p, encs, fl, ans) -> ok_C14 case (run_SND case) = [].
+Proof.
+  intros Hs. unfold ok_C14, run_SND. rewrite Hs.
+  destruct (existsb (fun x => 1 <? x) ans) eqn:Eh; [reflexivity|].
+  destruct (accepts_codes ans Eh) as [Hn Ha]. unfold usart_send.
+  destruct (uwrite_all_spec (concat (map link_bytes encs)) (map wtok_of ans) Hn) as [S1 S2]. rewrite Ha in S1, S2.
+  destruct (length (concat (map link_bytes encs)) <=? length (filter (fun x => (x =? 0)%N) ans))%nat eqn:El.
+  - apply Nat.leb_le in El. destruct (S1 El) as [rest [Hw _]]. rewrite Hw. rewrite list_eqb_refl. reflexivity.
+  - apply Nat.leb_gt in El. rewrite (S2 El). rewrite list_eqb_refl. reflexivity.
+Qed.
+
+(* ---------- C14, serial port: the SND checker accepts the model's observation ---------- *)
+Lemma is_prefix_app a b : is_prefix a (a ++ b) = true.
+Proof. induction a as [|x a IH]; [reflexivity|]. cbn [app is_prefix]. rewrite N.eqb_refl, IH. reflexivity. Qed.
+Theorem ok_C14_serial_accepts_model case p encs fl ans :
+  snd_split case = Some (2, p, encs, fl, ans) -> ok_C14 case (run_SND case) = [].
+Proof.
+  intros Hs. unfold ok_C14, run_SND. rewrite Hs.
+  pose proof (serial_send_spec encs (map ptok_of ans) fl) as H.
+  destruct (serial_send encs (map ptok_of ans) fl) as [w r] eqn:Ess. destruct H as [[rest Hp] [Hv _]].
+  unfold wire in Hp, Hv. rewrite Hp, is_prefix_app. cbn [negb].
+  destruct r as [u|e| |]; cbn [show_sres].
+  - destruct u. destruct (Hv eq_refl) as [Hw Hf]. rewrite <- Hp, Hw, list_eqb_refl, Hf. cbn [N.eqb negb andb]. rewrite list_eqb_refl. reflexivity.
+  - assert (E: (serr_code e =? 0) = false) by (destruct e; reflexivity). rewrite E. cbn [andb]. rewrite list_eqb_refl. reflexivity.
+  - cbn [N.eqb andb]. rewrite list_eqb_refl. reflexivity.
+  - cbn [N.eqb andb]. rewrite list_eqb_refl. reflexivity.
+Qed.
